@@ -15,6 +15,11 @@ fn sym_json(s: &Sym) -> Value { if s.radial { json!({"k": "R", "el": s.el, "vol"
 
 pub const DATE: u16 = 19_800;
 
+/// The model's pattern tokens are positive (0 = "no volume block"); on the wire token 35 is the pattern NUMBER 0,
+/// so that a first volume block carrying number 0 is part of every run (the number is data, not a presence flag).
+pub fn wire_vcp(token: u16) -> u16 { if token == 35 { 0 } else { token } }
+pub fn vcp_token(number: i64) -> i64 { if number == 0 { 35 } else { number } }
+
 /// one message frame; the tag of a radial travels in the collection time (ms of day) and the azimuth number
 pub fn frame(l: &Layouts, rng: &mut Rng, s: &Sym, k: usize) -> Vec<u8> {
     if !s.radial {
@@ -27,7 +32,7 @@ pub fn frame(l: &Layouts, rng: &mut Rng, s: &Sym, k: usize) -> Vec<u8> {
     }
     let mut f = crate::frames::msg_header_bytes(31, k as u16, 0xFFFF);
     let mut blocks: Vec<Block> = Vec::new();
-    if s.vol != 0 { let mut b = random_block(l, rng, "VOL", 0, 8, 0); b.rec.insert("volume_coverage_pattern_number".into(), s.vol.to_be_bytes().to_vec()); blocks.push(b); }
+    if s.vol != 0 { let mut b = random_block(l, rng, "VOL", 0, 8, 0); b.rec.insert("volume_coverage_pattern_number".into(), wire_vcp(s.vol).to_be_bytes().to_vec()); blocks.push(b); }
     let all_blocks = s.vol != 0 && s.id % 3 == 0;      // a full ten-block radial every so often
     for p in ["ELV", "RAD", "REF", "VEL", "SW", "ZDR", "PHI", "RHO", "CFP"] {
         if all_blocks || rng.chance(1, 2) { let g = *rng.pick(&[0usize, 1, 7, 40]); let w = if p == "PHI" || rng.chance(1, 5) { 16 } else { 8 }; blocks.push(random_block(l, rng, p, g, w, 0)); }
@@ -76,7 +81,7 @@ pub fn exercise(l: &Layouts, rng: &mut Rng, recs: &[Vec<Sym>]) -> Value {
                 for r in s.radials() { let id = (r.collection_timestamp() - base) as u64; same &= alone.get(&id).map(|a| a == r).unwrap_or(false) && r.elevation_number() == s.elevation_number(); }
                 json!({"el": s.elevation_number(), "ids": ids})
             }).collect();
-            json!({"recs": rj, "out": "ok", "vcp": scan.coverage_pattern_number(), "sweeps": sweeps, "same": same, "detail": ""})
+            json!({"recs": rj, "out": "ok", "vcp": vcp_token(scan.coverage_pattern_number() as i64), "sweeps": sweeps, "same": same, "detail": ""})
         }
     }
 }
@@ -138,6 +143,12 @@ pub fn run(args: &Args) {
                 // random record split (empty records allowed)
                 let mut recs: Vec<Vec<Sym>> = vec![vec![]];
                 for s in stream { if rng.chance(1, 40) { recs.push(vec![]); if rng.chance(1, 10) { recs.push(vec![]); } } recs.last_mut().expect("rec").push(s); }
+                if k == 4 {
+                    // one LDM record whose decompressed payload exceeds 4 MiB (1,730 metadata frames of 2,432 bytes ahead of its radials)
+                    let mut big: Vec<Sym> = (0..1730).map(|_| Sym { radial: false, el: 0, vol: 0, id: 0 }).collect();
+                    big.extend(recs[0].drain(..));
+                    recs[0] = big;
+                }
                 res.case(fnv(format!("{:?}", recs).as_bytes()), true);
                 tr.ev(exercise(&l, &mut rng, &recs));
             }
